@@ -28,3 +28,11 @@ Proof. exact Arch.C20Example.example_amd64_statement. Qed.
 (* ... and the checker is not vacuous: the pre-repair AArch64 table fails it *)
 Example cc_ok_refutes_old_aarch64 : cc_ok old_aarch64 = false.
 Proof. exact Arch.C20Example.old_aarch64_refuted. Qed.
+
+(* no false alarm, partial: for eight of the twelve clauses the executable check is implied by the clause's
+   part of the statement, so on tables that satisfy C20 these checks cannot fail (open for CNamed,
+   CStackStride, CStackBase, CSpPreserved, which also compare dumped query results) *)
+Theorem clause_complete_partial : forall (a : abi) (t : dump) (k : clause),
+  C20_statement a t -> In k iff_clauses -> clause_ok a t k = true.
+Proof. exact Arch.CcOk.clause_complete_partial. Qed.
+Print Assumptions clause_complete_partial.
